@@ -190,7 +190,7 @@ func (ps *ProfService) SelectSeries(ctx context.Context, strScript string, strTy
 	)
 
 	err = ps.queryCols(ctx, db, sel, func() error {
-		if lastFp != fp || lastFp == 0 {
+		if len(res.Series) == 0 || lastFp != fp {
 			res.Series = append(res.Series, &v1.Series{
 				Labels: nil,
 				Points: []*v1.Point{{Value: value, Timestamp: tsMs}},
